@@ -137,6 +137,23 @@ func (r *Run) Shard(k int) {
 	r.mu.Unlock()
 }
 
+// IsShardChild is true in a child process of Shard (its counters are merged by the parent).
+func (r *Run) IsShardChild() bool { return shardK > 1 }
+
+// CountersWithPrefix returns the names of the counters (after merging, in the parent) that start with prefix.
+func (r *Run) CountersWithPrefix(prefix string) []string {
+	r.mu.Lock()
+	defer r.mu.Unlock()
+	var out []string
+	for k := range r.counters {
+		if len(k) >= len(prefix) && k[:len(prefix)] == prefix {
+			out = append(out, k[len(prefix):])
+		}
+	}
+	sort.Strings(out)
+	return out
+}
+
 // Once is true where work that is not split over shards has to run: in an unsharded process and in shard 0.
 func (r *Run) Once() bool { return !r.parent && shardI == 0 }
 
